@@ -157,30 +157,40 @@ type Polyizer struct {
 	depth  int
 }
 
-// pureBody returns the returned value of fn if fn is a single block of pure
-// arithmetic on its parameters.
-func pureBody(fn *ssa.Function) (ssa.Value, bool) {
-	if fn == nil || len(fn.Blocks) != 1 || len(fn.FreeVars) != 0 {
+// pureBody returns the returned values of fn if fn is a single block that only
+// computes on its parameters and reads memory through them (no stores, no calls
+// other than to functions of the same kind).
+func pureBody(fn *ssa.Function) ([]ssa.Value, bool) {
+	return pureBodyD(fn, 0)
+}
+
+func pureBodyD(fn *ssa.Function, depth int) ([]ssa.Value, bool) {
+	if fn == nil || len(fn.Blocks) != 1 || len(fn.FreeVars) != 0 || depth > 2 {
 		return nil, false
 	}
-	var ret ssa.Value
+	var ret []ssa.Value
 	for _, in := range fn.Blocks[0].Instrs {
 		switch x := in.(type) {
-		case *ssa.BinOp, *ssa.Convert, *ssa.ChangeType, *ssa.DebugRef:
+		case *ssa.BinOp, *ssa.Convert, *ssa.ChangeType, *ssa.DebugRef, *ssa.FieldAddr, *ssa.Field, *ssa.Extract:
 		case *ssa.UnOp:
-			if x.Op == token.MUL || x.Op == token.ARROW {
+			if x.Op == token.ARROW {
+				return nil, false
+			}
+		case *ssa.Call:
+			cal := x.Common().StaticCallee()
+			if cal == nil || cal.Pkg == nil || fn.Pkg == nil {
+				return nil, false
+			}
+			if _, ok := pureBodyD(cal, depth+1); !ok {
 				return nil, false
 			}
 		case *ssa.Return:
-			if len(x.Results) != 1 {
-				return nil, false
-			}
-			ret = x.Results[0]
+			ret = x.Results
 		default:
 			return nil, false
 		}
 	}
-	return ret, ret != nil
+	return ret, len(ret) > 0
 }
 
 func log2(m uint64) (int, bool) {
@@ -212,10 +222,22 @@ func (z *Polyizer) Of(v ssa.Value) Poly {
 		}
 	}
 	if z.Inline {
-		if call, ok := v.(*ssa.Call); ok && isIntegral(call.Type()) {
-			if fn := call.Common().StaticCallee(); fn != nil {
-				if ret, ok := pureBody(fn); ok {
+		var call *ssa.Call
+		idx := 0
+		if c, ok := v.(*ssa.Call); ok && isIntegral(c.Type()) {
+			call = c
+		} else if ex, ok := v.(*ssa.Extract); ok && isIntegral(ex.Type()) {
+			if c, ok := ex.Tuple.(*ssa.Call); ok {
+				call, idx = c, ex.Index
+			}
+		}
+		if call != nil {
+			if fn := call.Common().StaticCallee(); fn != nil && fn.Pkg != nil && !strings.HasPrefix(fn.Pkg.Pkg.Path(), "sync/atomic") {
+				if ret, ok := pureBody(fn); ok && idx < len(ret) && isIntegral(ret[idx].Type()) {
 					env := map[ssa.Value]Poly{}
+					for k, vv := range z.env {
+						env[k] = vv
+					}
 					for i, p := range fn.Params {
 						if i < len(call.Common().Args) && isIntegral(p.Type()) {
 							env[p] = z.Of(call.Common().Args[i])
@@ -223,7 +245,7 @@ func (z *Polyizer) Of(v ssa.Value) Poly {
 					}
 					old := z.env
 					z.env = env
-					r := z.Of(ret)
+					r := z.Of(ret[idx])
 					z.env = old
 					return r
 				}
@@ -275,7 +297,32 @@ func (z *Polyizer) Of(v ssa.Value) Poly {
 				}
 				return polyAtom(fmt.Sprintf("fdiv%d(%s)", k, inner.String()))
 			}
+		case token.REM:
+			// x % 2^k (unsigned) == x - 2^k*fdiv_k(x)
+			if c, ok := constUint64(x.Y); ok {
+				if k, ok := log2(c); ok && k > 0 {
+					inner := z.Of(x.X)
+					return inner.add(polyAtom(fmt.Sprintf("fdiv%d(%s)", k, inner.String())).mul(polyConst(int64(c))), -1)
+				}
+			}
+		case token.QUO:
+			if c, ok := constUint64(x.Y); ok {
+				if k, ok := log2(c); ok && k > 0 {
+					return polyAtom(fmt.Sprintf("fdiv%d(%s)", k, z.Of(x.X).String()))
+				}
+			}
 		case token.AND_NOT, token.AND:
+			// x & (2^k - 1)  ==  x - 2^k*fdiv_k(x)   (low-bits mask: the remainder)
+			if x.Op == token.AND {
+				for _, pair := range [][2]ssa.Value{{x.X, x.Y}, {x.Y, x.X}} {
+					if c, ok := constUint64(pair[1]); ok && c != 0 {
+						if k, ok := log2(c + 1); ok && k > 0 && k < 63 {
+							inner := z.Of(pair[0])
+							return inner.add(polyAtom(fmt.Sprintf("fdiv%d(%s)", k, inner.String())).mul(polyConst(int64(c+1))), -1)
+						}
+					}
+				}
+			}
 			// x &^ m  or  x & ^m  with m = 2^k-1
 			var mask uint64
 			var arg ssa.Value
